@@ -516,9 +516,28 @@ class Evaluator:
             if isinstance(a_, str):
                 return recv.startswith(a_) if m == "starts_with" else recv.endswith(a_)
         if m == "abs" and isinstance(recv, int) and not isinstance(recv, bool):
+            if int(recv) == -(1 << 63):
+                raise Panic("abs-overflow", e.get("l"))   # |isize::MIN| does not exist (overflow checks on)
             return SInt(abs(int(recv)))
         if m == "unsigned_abs" and isinstance(recv, int) and not isinstance(recv, bool):
             return abs(int(recv))
+        if m in ("checked_sub", "checked_add") and len(e["args"]) == 1 and isinstance(recv, int) and not isinstance(recv, bool):
+            o_ = self.eval(e["args"][0], env)
+            if isinstance(o_, int) and not isinstance(o_, bool):
+                v_ = int(recv) - int(o_) if m == "checked_sub" else int(recv) + int(o_)
+                if isinstance(recv, SInt) or isinstance(o_, SInt):
+                    return some(SInt(v_)) if -(1 << 63) <= v_ < (1 << 63) else None
+                return some(v_) if 0 <= v_ < (1 << 64) else None
+        if m == "map" and len(e["args"]) == 1 and (recv is None or is_some(recv)) and e["args"][0].get("k") == "closure":
+            if recv is None:
+                return None
+            clo = e["args"][0]
+            b_ = {}
+            if len(clo["inputs"]) != 1 or not match_pat(clo["inputs"][0], recv[1], b_):
+                raise Unknown("closure parameter pattern")
+            env2 = dict(env)
+            env2.update(b_)
+            return some(self.eval(clo["body"], env2))
         if m == "saturating_sub" and len(e["args"]) == 1 and isinstance(recv, int) and not isinstance(recv, bool):
             o_ = self.eval(e["args"][0], env)
             if isinstance(o_, int) and not isinstance(o_, bool):
